@@ -16,7 +16,7 @@ import (
 	"verifharness/world"
 )
 
-const ruleC06 = "one run = 5 servers with rotating key histories, 1-3 events (message / state / member with every membership, invites to remote users, joins carrying join_authorised_via_users_server) built with the real EventBuilder in a room version drawn from the whole registry (pseudo-ID version excluded), each required signer given a tape-chosen plan (current key, old key, absent, corrupted, wrong key, unknown key id, unsupported algorithm, plus extra valid/invalid signatures of required and unrelated servers), origin_server_ts placed around key expiry and the valid_until / 7-day boundaries, the clock advanced (with rotations) before verification by the real KeyRing+DirectKeyFetcher over honest key servers or by a ledger verifier; non-trivial = at least one required signer had a non-default plan or the clock/keys changed between signing and verification; distinct = distinct event-log hash"
+const ruleC06 = "one run = 5 servers with rotating key histories, 1-3 events (message / state / member with every membership, invites to remote users, joins carrying join_authorised_via_users_server) built with the real EventBuilder in a room version drawn from the whole registry, each required signer given a tape-chosen plan (current key, old key, absent, corrupted, wrong key, unknown key id, unsupported algorithm, plus extra valid/invalid signatures of required and unrelated servers), origin_server_ts placed around key expiry and the valid_until / 7-day boundaries, the clock advanced (with rotations) before verification by the real KeyRing+DirectKeyFetcher over honest key servers or by a ledger verifier; 15% of the runs are pseudo-ID rooms (sender-key signatures, invited-key signatures, mxid_mapping vouched for by the user's server under the same plans, malformed sender IDs, unrelated signatures on event and mapping); non-trivial = at least one required signer had a non-default plan or the clock/keys changed between signing and verification; distinct = distinct event-log hash"
 
 // independent tables (Matrix specification; unstable versions as registered)
 var strictFrom = map[gmsl.RoomVersion]bool{"1": false, "2": false, "3": false, "4": false}
@@ -52,6 +52,10 @@ type evCase struct {
 
 func bodyC06(r *sim.Run) {
 	t := r.T
+	if t.Chance(150) {
+		bodyC06Pseudo(r)
+		return
+	}
 	s := sim.NewSched(r)
 	now := time.Now()
 	w := &kworld{r: r, s: s, led: world.NewLedger()}
